@@ -224,7 +224,7 @@ def read_sinex_estimate(file):
         for line in f:
             if line[:18] == '-SOLUTION/ESTIMATE':
                 break
-            if go and line[:11] == '*INDEX TYPE':
+            if go and line[:1] == '*':
                 pass
             elif go:
                 if line[7:10] == 'VEL':
@@ -317,7 +317,7 @@ def read_sinex_matrix(file):
         for line in f:
             if line[:25] == '-SOLUTION/MATRIX_ESTIMATE':
                 break
-            if go and line[:12] == '*PARA1 PARA2':
+            if go and line[:1] == '*':
                 pass
             elif go:
                 lines.append(line)
@@ -415,7 +415,7 @@ def read_sinex_sites(file):
         for line in f:
             if line[:8] == '-SITE/ID':
                 break
-            if go and line[:8] == '*CODE PT':
+            if go and line[:1] == '*':
                 pass
             elif go:
                 lines.append(line)
